@@ -114,7 +114,7 @@ CHECKS["C12"] = (
 
 CHECKS["C10"] = (
     "CrossHair-explored selector space of correlation rules through the real collection loading + conversion on a verification backend with delimiter-structured correlation templates; expected query computed element by element from the source documents; extended conditions compared by z3-decided boolean equivalence",
-    "8 correlation types x 1..3 referenced rules (single-condition, two-condition, nested correlation) x group-by variants incl. aliases x generate x field-mapping pipeline x sub-query finalisation x typing templates; 8 types x 6 operators x 3 counts (+percentile); 7 timespan units x 4 counts x 3 rendering modes and every timespan text of length <= 3/4 over a 12-character alphabet; 18 extended condition expressions x temporal/temporal_ordered x with/without rules list.",
+    "8 correlation types x 1..3 referenced rules (single-condition, two-condition, nested correlation) x group-by variants incl. aliases x generate x field-mapping pipeline x sub-query finalisation x typing templates; 8 types x 6 operators x 5 counts incl. fractions (+percentile incl. 99.9); 7 timespan units x 4 counts x 3 rendering modes and every timespan text of length <= 3/4 over a 12-character alphabet; 18 extended condition expressions x temporal/temporal_ordered x with/without rules list.",
     TB,
     "5.C10",
 )
